@@ -670,6 +670,8 @@ func c13NodeCount(w W) int { return wireSize(w) }
 
 func c13Eval(c *Ctx, kind string, raw []byte) {
 	switch kind {
+	case "large":
+		c13EvalLarge(c, raw) // c13_more.go
 	case "set":
 		c13EvalSet(c, raw)
 	case "template":
@@ -718,7 +720,7 @@ func c13EvalSet(c *Ctx, raw []byte) {
 	before := nodeWire(gd)
 	op := &pipeline.SetOp{Path: p.Path}
 	if p.Payload != nil {
-		op.Data = wirePlain(p.Payload).(map[string]any)
+		op.Data = c13SharedPayload(p.Payload) // equal subtrees are ONE Go object (c13_more.go)
 	}
 	strategy := "merge"
 	if p.Strategy != nil {
